@@ -21,6 +21,11 @@ CATEGORIES = [
     (r"abasic-cli/src/stdio_interpreter\.rs", {224, 198}, "CLI session control / which line is echoed with an error (see the categories above)"),
     (r"abasic-cli/src/stdio_printer\.rs", {5}, "size of the CLI's line buffer (granularity of writes)"),
     (r"abasic-core/src/analyzer/expression_analyzer\.rs", {42}, "equivalent: the analyzer computes the arity of an array index but never uses it (TODO in the source)"),
+    (r"abasic-core/src/analyzer/statement_analyzer\.rs", {166}, "the analyzer's READ assigns a value typed after the variable's own name: the check cannot fail, only the symbol-usage log (warnings) changes"),
+    (r"abasic-core/src/data\.rs", {200}, "DATA strings allocated outside the string manager: memory accounting only"),
+    (r"abasic-core/src/program\.rs", {19}, "nesting limit 65 instead of 64: as safe a bound; no property names the number"),
+    (r"abasic-core/src/program\.rs", {183}, "equivalent: loop names are unique on the FOR stack, so the search direction does not matter"),
+    (r"abasic-lsp/src/main\.rs", {312}, "diagnostic severity left unset: C20 speaks about the set, ranges and liveness of diagnostics, not their severity"),
     (r"abasic-cli/src/cli_args\.rs", {31}, "decides whether the CLI stays at the prompt after running a file; the program's output is the same"),
     (r"abasic-cli/src/stdio_printer\.rs", {41, 49, 50, 51},
      "line-buffer granularity of the CLI's stdout (when a chunk is written, not whether): all output still reaches stdout before a "
